@@ -176,7 +176,8 @@ def main(argv=None):
                 if len(vlines) < 4:
                     wd = os.path.join(core.tempfile.gettempdir(), 'nv_replay_%s_%s' % (prop, hashlib.md5(v['name'].encode()).hexdigest()[:8]))
                     nr = replay.native_replay(v['h'], p, wd)
-                    shutil.rmtree(wd, ignore_errors=True)
+                    if not os.environ.get('V_KEEP_REPLAY'):
+                        shutil.rmtree(wd, ignore_errors=True)
                     rec['native_replay'] = nr
                     if nr['outcome'] == 'confirmed':
                         suffix = ' confirmed-by-native-replay'
